@@ -913,6 +913,14 @@ pub struct C16Plan {
     /// accepts only one: more than stream_buffer_size + 1 of them fill the accept backlog
     #[serde(default)]
     pub flood_connects: usize,
+    /// a zero interval / timeout is written `OptionalDuration::from_secs(0)` instead of `NONE`
+    /// (the conversions from `Duration` and from a string map 0 to NONE): it must mean "disabled"
+    #[serde(default)]
+    pub zero_via_from_secs: bool,
+    /// the peer sends WebSocket Pings of its own every so many ms (0 = never), also after it has
+    /// stopped answering ours: a Ping from the peer is not a Pong
+    #[serde(default)]
+    pub peer_pings_ms: u64,
 }
 
 pub fn run_c16(plan: &C16Plan, sched: &Sched, record: bool) -> Outcome {
@@ -923,7 +931,8 @@ async fn run_c16_async(plan: C16Plan, sched: Sched, record: bool) -> Outcome {
     use penguin_mux::timing::OptionalDuration;
     let ms = Duration::from_millis;
     let (i_ms, t_req) = (plan.interval_ms, plan.timeout_ms);
-    let od = |x: u64| if x == 0 { OptionalDuration::NONE } else { OptionalDuration::from(ms(x)) };
+    let zf = plan.zero_via_from_secs;
+    let od = |x: u64| if x == 0 { if zf { OptionalDuration::from_secs(0) } else { OptionalDuration::NONE } } else { OptionalDuration::from(ms(x)) };
     // documented order: interval first, then timeout (so that T < I is clamped)
     let opts = if plan.timeout_first { Options::new().keepalive_timeout(od(t_req)).keepalive_interval(od(i_ms)) } else { Options::new().keepalive_interval(od(i_ms)).keepalive_timeout(od(t_req)) };
     let cfg = EpCfg::default();
@@ -948,6 +957,15 @@ async fn run_c16_async(plan: C16Plan, sched: Sched, record: bool) -> Outcome {
             *ae.borrow_mut() = Some(format!("{:?}", r.map(|_| ())));
         });
     }
+    if plan.peer_pings_ms > 0 && plan.interval_ms > 0 {
+        let (raw, every, n) = (s.raw.clone(), plan.peer_pings_ms, 200 * plan.interval_ms.max(1) / plan.peer_pings_ms.max(1) + 2);
+        s.sim.spawn("peer-pinger", CLS_OTHER, async move {
+            for _ in 0..n.min(5000) {
+                tokio::time::sleep(Duration::from_millis(every)).await;
+                raw.borrow_mut().send_msg(penguin_mux::ws::Message::Ping);
+            }
+        });
+    }
     if plan.flood_connects > 0 {
         let (raw, n) = (s.raw.clone(), plan.flood_connects);
         s.sim.spawn("flood", CLS_OTHER, async move {
@@ -968,6 +986,9 @@ async fn run_c16_async(plan: C16Plan, sched: Sched, record: bool) -> Outcome {
                     let d = plan2.delays.get(seen).copied().unwrap_or(plan2.tail);
                     seen += 1;
                     match d {
+                        None if plan2.peer_pings_ms > 0 => {
+                            // the peer no longer answers our pings but keeps sending its own
+                        }
                         None => {
                             // a dead peer: the transport returns nothing any more, not even Close
                             link.lock().unwrap().set_hold(1, true);
@@ -991,7 +1012,9 @@ async fn run_c16_async(plan: C16Plan, sched: Sched, record: bool) -> Outcome {
         });
     }
     let t_ms = if t_req == 0 { 0 } else { t_req.max(i_ms) };
-    let horizon = ms(if i_ms == 0 { 600_000 } else { (i_ms * 50).max(t_ms + 12 * i_ms) } + 7) + d0;
+    // late pongs of a peer that later falls silent still count: the deadline moves with them
+    let last_scripted_pong = plan.delays.iter().enumerate().filter_map(|(k, d)| d.map(|d| k as u64 * i_ms + d)).max().unwrap_or(0);
+    let horizon = ms(if i_ms == 0 { 600_000 } else { (i_ms * 50).max(t_ms + 12 * i_ms).max(last_scripted_pong + t_ms + 4 * i_ms) } + 7) + d0;
     let end = s.sim.run(5_000_000, horizon).await;
     let mut o = Outcome { digest: s.sim.digest.0 ^ s.seq.now(), steps: s.sim.steps, decisions: s.sim.decisions.take().unwrap_or_default(), sim_ms: horizon.as_millis() as u64, ..Default::default() };
     if end != End::Quiescent {
@@ -1002,7 +1025,7 @@ async fn run_c16_async(plan: C16Plan, sched: Sched, record: bool) -> Outcome {
     let pings: Vec<(u64, Duration)> = l.evs.iter().filter(|e| e.stage == Stage::Sent && e.from == 0 && matches!(&*e.w, Wire::Ping)).map(|e| (e.seq, e.t)).collect();
     let pongs: Vec<(u64, Duration)> = l.evs.iter().filter(|e| e.stage == Stage::Consumed && e.from == 1 && matches!(&*e.w, Wire::Pong)).map(|e| (e.seq, e.t)).collect();
     let te = s.task_end.borrow().clone();
-    let desc = format!("I={i_ms}ms T(requested)={t_req}ms T(effective)={t_ms}ms task started {d0:?} after construction, builder order: {}, peer opens {} streams at once, delays={:?} tail={:?} pings={} pongs={} task_end={:?}", if plan.timeout_first { "timeout first" } else { "interval first" }, plan.flood_connects, plan.delays, plan.tail, pings.len(), pongs.len(), te.as_ref().map(|t| (t.1.clone(), t.2)));
+    let desc = format!("I={i_ms}ms T(requested)={t_req}ms T(effective)={t_ms}ms task started {d0:?} after construction, builder order: {}, peer opens {} streams at once, peer pings every {} ms, delays={:?} tail={:?} pings={} pongs={} task_end={:?}", if plan.timeout_first { "timeout first" } else { "interval first" }, plan.flood_connects, plan.peer_pings_ms, plan.delays, plan.tail, pings.len(), pongs.len(), te.as_ref().map(|t| (t.1.clone(), t.2)));
     o.note = desc.clone();
     // ---- disabled: no ping is sent and no timeout ever occurs
     if i_ms == 0 {
